@@ -340,12 +340,14 @@ def check_case(case, rec):
         rec.event('operations')
         if name == 'set_radius':
             _, v, k = op
+            v = L.fnum(v)                      # replay files carry +-inf as strings
             lens.set_radius(v, k)
             expect[k]['radius'] = v
             if expect[k]['conic'] is None:
                 expect[k]['conic'] = 0.0
             rb = float(lens.surface_group.radii[k])
-            rec.check('frame+readback', rb == v, msg=f'set_radius({v},{k}) reads back {rb}')
+            # (a flat surface is the same surface whatever the sign of its infinite radius)
+            rec.check('frame+readback', rb == v or (math.isinf(v) and math.isinf(rb)), msg=f'set_radius({v},{k}) reads back {rb}')
         elif name == 'set_conic':
             _, v, k = op
             lens.set_conic(v, k)
